@@ -22,7 +22,9 @@ CH = {'a': 'a', 'amp': '&', 'eq': '=', 'quot': '"', 'apos': "'", 'lt': '<', 'gt'
       # look-alikes of the placeholders of the auto-submitting form's own template (filled in one pass: data stays data)
       'tplaction': '{action}', 'tplrelay': '{relay_state_input}', 'tplmsg': '{saml_response_input}', 'tplempty': '{}', 'brace': '{',
       # a backslash, alone and in the spellings regular-expression replacement templates interpret
-      'bslash': '\\', 'bsesc': '\\t', 'bsgroup': '\\g<0>'}
+      'bslash': '\\', 'bsesc': '\\t', 'bsgroup': '\\g<0>',
+      # a run of 70 000 characters (a photo attribute): size limits of inflaters and form fields
+      'big': 'photo' * 14000}
 B = {'redirect': env.BINDING_REDIRECT, 'post': env.BINDING_POST, 'soap': env.BINDING_SOAP,
      'artifact': 'urn:oasis:names:tc:SAML:2.0:bindings:HTTP-Artifact', 'paos': 'urn:oasis:names:tc:SAML:2.0:bindings:PAOS'}
 ARTIFACT = 'AAQAAMFbLinlXaCM+FIxiDwGOLAy2T71gbpO7ZhNzAgEANlB90ECfpNEVLg/=='
